@@ -210,7 +210,7 @@ def reinsertInterleaving : List ConcM.Ev :=
 (run-local size 2), the map already holds the new generation `(1, 5)`, the access-order list
 still holds the old generation's node. -/
 example : cmSummary cmParams (reinsertInterleaving.take 19)
-    = some (some (.writes 4 1), [(2, 3), (1, 5)], [[1], [1, 1, 1, 2], [3, 0]]) := by
+    = some (some (.writes Gen.MAX_SYNC_REPEATS 1), [(2, 3), (1, 5)], [[1], [1, 1, 1, 2], [3, 0]]) := by
   decide +kernel
 
 /-- At the end: both keys resident and admitted, counters exact. -/
